@@ -91,6 +91,23 @@ Proof.
   do 2 f_equal. rewrite map_map. f_equal. apply map_ext. intro c. apply create_coldef_literal.
 Qed.
 
+(* ---------- the attributes a MODIFY restates (fix N1) read column names and the primary key only ---------- *)
+Lemma constraints_of_literal p s t :
+  constraints_of (literal_schema p s) (p +++ t) = map (literal_constraint p) (constraints_of s t).
+Proof. unfold constraints_of. rewrite find_table_literal. destruct (find_table t s); reflexivity. Qed.
+Lemma restated_auto_literal p s t c c' :
+  c_name c' = c_name c -> c_type c' = c_type c ->
+  restated_auto (literal_schema p s) (p +++ t) c' = restated_auto s t c.
+Proof. intros H1 H2. unfold restated_auto. rewrite constraints_of_literal, auto_cols_literal, H1, H2. reflexivity. Qed.
+Lemma restate_attrs_literal p s t c c' d :
+  c_name c' = c_name c -> c_type c' = c_type c -> c_comment c' = c_comment c ->
+  restate_attrs (literal_schema p s) (p +++ t) c' d = restate_attrs s t c d.
+Proof. intros H1 H2 H3. unfold restate_attrs. rewrite (restated_auto_literal p s t c c' H1 H2), H3. reflexivity. Qed.
+Lemma restate_auto_literal p s t c c' d :
+  c_name c' = c_name c -> c_type c' = c_type c ->
+  restate_auto (literal_schema p s) (p +++ t) c' d = restate_auto s t c d.
+Proof. intros H1 H2. unfold restate_auto. rewrite (restated_auto_literal p s t c c' H1 H2). reflexivity. Qed.
+
 (* ---------- the three builders that look the column up ---------- *)
 Lemma with_column_literal p s t c (f : column_def -> list stmt) (g : column_def -> list stmt) :
   (forall col, g (literal_col p col) = map (rename_stmt p) (f col)) ->
@@ -126,12 +143,21 @@ Proof.
   - reflexivity.
   - (* ModifyColumnType *) cbn [rename_result]. f_equal. unfold gen_modify_type.
     rewrite map_app, fill_with_updates_literal. f_equal. cbn [map rename_stmt]. do 2 f_equal.
-    unfold modify_type_coldef. rewrite lookup_column_literal. destruct (lookup_column s tb cn); reflexivity.
-  - (* ModifyColumnNullable *) unfold gen_modify_nullable. apply with_column_literal. intro col.
+    unfold modify_type_coldef. rewrite lookup_column_literal. destruct (lookup_column s tb cn) as [c|]; [|reflexivity].
+    cbn [option_map]. rewrite (restate_attrs_literal p s tb (set_type ty c) (set_type ty (literal_col p c)) _ eq_refl eq_refl eq_refl).
+    reflexivity.
+  - (* ModifyColumnNullable *) unfold gen_modify_nullable. apply with_column_literal. intro col. cbn zeta.
     rewrite map_app. cbn [map rename_stmt]. f_equal.
-    destruct nl; [reflexivity|]. destruct (normalize_fill_with fw); reflexivity.
-  - unfold gen_modify_default. apply with_column_literal. intro col. reflexivity.
-  - unfold gen_modify_comment. apply with_column_literal. intro col. reflexivity.
+    + destruct nl; [reflexivity|]. destruct (normalize_fill_with fw); reflexivity.
+    + rewrite (restate_attrs_literal p s tb (set_nullable nl col) (set_nullable nl (literal_col p col)) _ eq_refl eq_refl eq_refl).
+      reflexivity.
+  - unfold gen_modify_default. apply with_column_literal. intro col. cbn zeta. cbn [map rename_stmt].
+    rewrite (restate_attrs_literal p s tb (set_default (option_map default_of_string nd) col)
+               (set_default (option_map default_of_string nd) (literal_col p col)) _ eq_refl eq_refl eq_refl).
+    reflexivity.
+  - unfold gen_modify_comment. apply with_column_literal. intro col. cbn zeta. cbn [map rename_stmt].
+    rewrite (restate_auto_literal p s tb (set_comment nc col) (set_comment nc (literal_col p col)) _ eq_refl eq_refl).
+    reflexivity.
   - (* AddConstraint *) cbn [rename_result]. f_equal.
     destruct k; cbn [literal_constraint gen_add_constraint map rename_stmt]; try reflexivity.
     + rewrite rename_name_uq. reflexivity.
